@@ -284,7 +284,7 @@ func (c *specCtx) object(obj types.Object) Val {
 	switch o := obj.(type) {
 	case *types.Const:
 		if isString(o.Type()) {
-			return Val{T: o.Type(), L: []string{c.x.strLit(constant.StringVal(o.Val()))}}
+			return Val{T: types.Default(o.Type()), L: []string{c.x.strLit(constant.StringVal(o.Val()))}}
 		}
 		if isBool(o.Type()) {
 			if constant.BoolVal(o.Val()) {
@@ -533,6 +533,10 @@ func (c *specCtx) call(t *ast.CallExpr, n *SpecNode) Val {
 		// fresh(p): reference allocated during this call
 		v := arg(0)
 		return boolVal(app("bvuge", v.L[0], c.old.alloc))
+	case "allocated":
+		// allocated(p): reference exists in the current state (allocated before now)
+		v := arg(0)
+		return boolVal(app("bvult", v.L[0], c.st.alloc))
 	case "typeIs":
 		// typeIs(x, T): dynamic type of interface x is T
 		v := arg(0)
@@ -575,6 +579,25 @@ func (c *specCtx) call(t *ast.CallExpr, n *SpecNode) Val {
 			return boolVal(c.x.heapRead(c.st, "map:Str:gocache:has", SBool, cv.L[0], k.L[0]))
 		}
 		return Val{T: types.NewInterfaceType(nil, nil), L: []string{c.x.heapRead(c.st, "map:Str:gocache:val", SIface, cv.L[0], k.L[0])}}
+	case "ctxval":
+		// ctxval(ctx, key): value stored in a context.Context under key (model of context.WithValue)
+		cv, k := arg(0), arg(1)
+		if !isInterface(k.T) {
+			k = c.x.makeIface(c.st, types.NewInterfaceType(nil, nil), k)
+		}
+		c.x.regHeap("ctx.vals", SIface, SIface)
+		return Val{T: types.NewInterfaceType(nil, nil), L: []string{sel(sel(c.x.heapArr(c.st, "ctx.vals"), app("iref", cv.L[0])), k.L[0])}}
+	case "reqctx":
+		// reqctx(r): the context of an *http.Request (model field)
+		r := arg(0)
+		return Val{T: types.NewInterfaceType(nil, nil), L: []string{c.x.heapRead(c.st, "http.Request.ctx", SIface, r.L[0], "")}}
+	case "box":
+		// box(x): x converted to an interface value
+		v := arg(0)
+		if v.Const != nil {
+			v = c.coerce(v, types.Typ[types.Int])
+		}
+		return c.x.makeIface(c.st, types.NewInterfaceType(nil, nil), v)
 	case "buflen":
 		// buflen(b): number of bytes held by a *bytes.Buffer (model field)
 		b := arg(0)
@@ -614,34 +637,57 @@ func (c *specCtx) call(t *ast.CallExpr, n *SpecNode) Val {
 			}
 		}
 	}
+	if gm, ok := c.x.prog.contracts.GhostMaps[fname]; ok && len(t.Args) == 1 {
+		k := arg(0)
+		reg, _, vs := ghostMapRegion(gm)
+		if len(k.L) == 1 && k.L[0] == "nil" {
+			k = zeroVal(ghostType(gm.Key))
+		}
+		return Val{T: ghostType(gm.Val), L: []string{c.x.heapRead(c.st, reg, vs, "#x00000001", k.L[0])}}
+	}
 	if d, ok := c.x.prog.contracts.Defs[fname]; ok && d.Body != nil {
-		saved := map[string]*Val{}
-		var vals []Val
-		for i := range d.Params {
-			if i < len(t.Args) {
-				vals = append(vals, arg(i))
-			}
-		}
+		// hygienic: the body sees only its own parameters (and package-level names)
+		nenv := map[string]Val{}
 		for i, pn := range d.Params {
-			if old, had := c.env[pn]; had {
-				o := old
-				saved[pn] = &o
-			} else {
-				saved[pn] = nil
-			}
-			if i < len(vals) {
-				c.env[pn] = vals[i]
+			if i < len(t.Args) {
+				nenv[pn] = arg(i)
 			}
 		}
+		saved := c.env
+		c.env = nenv
 		r := c.node(d.Body)
-		for pn, o := range saved {
-			if o == nil {
-				delete(c.env, pn)
-			} else {
-				c.env[pn] = *o
+		c.env = saved
+		return r
+	}
+	// method calls on values: pure library methods only
+	if sel, ok := t.Fun.(*ast.SelectorExpr); ok && fname == "" {
+		recv := c.expr(sel.X, n)
+		if recv.T != nil {
+			ms := c.x.prog.ssa.MethodSets.MethodSet(recv.T)
+			for i := 0; i < ms.Len(); i++ {
+				m := ms.At(i)
+				if m.Obj().Name() != sel.Sel.Name {
+					continue
+				}
+				if f := c.x.prog.ssa.MethodValue(m); f != nil {
+					if k, _ := externKind(f); k == "pure" {
+						args := []Val{recv}
+						for i := range t.Args {
+							a := arg(i)
+							if a.Const != nil {
+								a = c.coerce(a, f.Signature.Params().At(i).Type())
+							}
+							args = append(args, a)
+						}
+						rs := c.x.pureCall(c.st, f, f.Signature, args)
+						if len(rs) >= 1 {
+							return rs[0]
+						}
+					}
+				}
 			}
 		}
-		return r
+		return c.fail("method call %s in specification is not a pure library method", sel.Sel.Name)
 	}
 	// conversions T(x)
 	if tt := specType(fname); tt != nil && len(t.Args) == 1 {
